@@ -140,7 +140,7 @@ fn key_proj(rows: &[Row], keys: &[(usize, bool)]) -> Vec<Row> {
 pub async fn run(cx: &mut Ctx) {
     let prop = cx.case.prop.clone();
     let p = prop.as_str();
-    let knobs = cx.case.knobs();
+    let mut knobs = cx.case.knobs();
     let steps = cx.case.steps.clone();
     let root = cx.root.clone();
     let t0 = tokio::time::Instant::now();
@@ -467,6 +467,12 @@ pub async fn run(cx: &mut Ctx) {
                 }
                 drop(db);
                 quiesce().await;
+                // whether first keys are recorded is an option of each open, but a property of
+                // each stored block: some runs switch it at every reopen
+                if cx.case.param("flip_first_key", 0) == 1 {
+                    knobs.record_first_key = !knobs.record_first_key;
+                    cx.probe("first-key-option-switched-at-reopen");
+                }
                 match Db::open(knobs.options(&root)).await {
                     Ok(d) => db = d,
                     Err(e) => {
@@ -1299,7 +1305,7 @@ async fn check_range(cx: &mut Ctx, db: &Db, q: &Query, model: &Model, at: usize)
     }
     // (3) storage level, INT keys at storage column 0 only, on a store that records first keys
     // (the storage API's contract for a range scan)
-    if def.cols[pk].ty == Ty::Int && pk == 0 && !def.pk_constraint && cx.case.knobs().record_first_key {
+    if def.cols[pk].ty == Ty::Int && pk == 0 && !def.pk_constraint && cx.case.knobs().record_first_key && cx.case.param("flip_first_key", 0) == 0 {
         let mut lo: Option<(bool, i32)> = None;
         let mut hi: Option<(bool, i32)> = None;
         // one range for the storage API: only when the key conjuncts are at most one lower and
